@@ -537,7 +537,10 @@ def indefinite_orthogonalize(form, matrices):
     #is probably small
 
     for i in range(n):
-        row = matrices[..., i, :]
+        # work on a copy with the (inexact) type of the result: a
+        # view of integer input cannot hold the projections, and the
+        # caller's array should not be modified
+        row = np.array(matrices[..., i, :], dtype=result.dtype)
         for j in range(i):
             row -= projection(row, result[..., j, :], form)
         result[..., i, :] = row
